@@ -116,7 +116,9 @@ def non_python_line(line: str) -> bool:
 
 def robustness(part: str, res: Dict[str, Any], tier: str) -> None:
     pl = ''.join(BASE_LINES).encode()
-    if part == 'truncate':
+    if part == 'linker':
+        linker_use(res)
+    elif part == 'truncate':
         for i in range(len(GOOD) + 1):
             fault('truncated', GOOD[:i], res, False, i)
     elif part.startswith('subst-header'):
@@ -271,7 +273,41 @@ def roundtrip(feats: Sequence[str], extra: Sequence[str], res: Dict[str, Any]) -
         res['samples'].append({'roundtrip_project': list(feats), 'args': list(extra), 'entries': len(expected)})
 
 
+def linker_use(res: Dict[str, Any]) -> None:
+    """The reader's other client: cross-references of a documented project resolved through a loaded inventory.  Names of every relation to the
+    project: foreign root, same top-level package but not part of the project (namespace packages / split distributions), members, unknown."""
+    import re as _re
+    from pydoctor import epydoc2stan
+    from pydoctor.stanutils import flatten
+    lines = ['ext.Thing py:class 1 ext.Thing.html -', 'ext.Thing.run py:method 1 ext.Thing.html#run -', 'pk.plugins py:module 0 pk.plugins.html -',
+             'pk.plugins.Loader py:class 1 pk.plugins.Loader.html -', 'pk.plugins.Loader.load py:method 1 pk.plugins.Loader.html#$ -', 'pk.core.Own py:class 1 elsewhere.html -',
+             'os py:module 0 library/os.html#module-$ -', 'a label std:label -1 page.html#a-label A Label']
+    data = HEADER + zlib.compress(('\n'.join(lines) + '\n').encode())
+    for fmt, q in (('epytext', lambda n: 'L{%s}' % n), ('restructuredtext', lambda n: '`%s`' % n)):
+        want = {'ext.Thing': 'http://h/ext.Thing.html', 'ext.Thing.run': 'http://h/ext.Thing.html#run', 'pk.plugins': 'http://h/pk.plugins.html',
+                'pk.plugins.Loader': 'http://h/pk.plugins.Loader.html', 'pk.plugins.Loader.load': 'http://h/pk.plugins.Loader.html#pk.plugins.Loader.load',
+                'os': 'http://h/library/os.html#module-os', 'pk.core.Own': 'pk.core.Own.html', 'pk.nowhere.X': None}
+        src_core = 'class Own:\n    "own"\n' + ''.join(f'def f{i}():\n    "see {q(n)}"\n' for i, n in enumerate(want))
+        s = pd.new_system({'docformat': fmt}, systemcls=pd.RecordingSystem)
+        s.intersphinx.update(Cache(data), 'http://h/objects.inv')
+        b = s.systemBuilder(s)
+        b.addModuleString('"pk"', 'pk', is_package=True)
+        b.addModuleString(src_core, 'core', 'pk')
+        b.buildModules()
+        for i, (name, url) in enumerate(want.items()):
+            res['evals'] += 1
+            res['nontrivial'].add(core.h('linker', fmt, name))
+            f = s.allobjects[f'pk.core.f{i}']
+            hrefs = _re.findall(r'href="([^"]+)"', flatten(epydoc2stan.format_docstring(f)))
+            got = hrefs[0] if hrefs else None
+            case = {'kind': 'linker', 'fmt': fmt, 'name': name}
+            rel = ('foreign-root' if not name.startswith('pk') else 'own-object' if name == 'pk.core.Own' else 'unknown' if url is None else 'same-root-not-in-project')
+            if got != url:
+                res['violations'].append(core.violation(f'inventory-link/{rel}', f'{fmt}: {q(name)} in pk.core links to {got!r}, the loaded inventory says {url!r}', case))
+
+
 def jobs(tier: str) -> Iterable[Tuple[str, Any]]:
+    yield ('linker-uses-inventory', ('robust', 'linker'))
     yield ('robust:truncate', ('robust', 'truncate'))
     for i in range(len(SUBS)):
         yield ('robust:header-bytes', ('robust', f'subst-header:{i}'))
@@ -322,6 +358,9 @@ def replay(case: Dict[str, Any]) -> List[Dict[str, Any]]:
             res['violations'].append(core.violation('usable-lines-lost/line', 'control lines lost', case))
         elif len(inv._links) <= 2 and not errors_of(msgs) and line.strip() and not non_python_line(line):
             res['violations'].append(core.violation('rejected-line-not-reported/replayed', 'neither used nor reported', case))
+    elif case['kind'] == 'linker':
+        linker_use(res)
+        res['violations'] = [v for v in res['violations'] if v['case'] == case]
     elif case['kind'] == 'location':
         robustness('locations', res, 'quick')
         res['violations'] = [v for v in res['violations'] if v['case'] == case]
